@@ -190,25 +190,21 @@ pub fn query_margin_ratio(deps: Deps, vamm: String, trader: String) -> StdResult
         position_notional: spot_notional,
         unrealized_pnl: spot_pnl,
     } = get_position_notional_unrealized_pnl(deps, &position, PnlCalcOption::SpotPrice)?;
-    let PositionUnrealizedPnlResponse {
-        position_notional: twap_notional,
-        unrealized_pnl: twap_pnl,
-    } = get_position_notional_unrealized_pnl(deps, &position, PnlCalcOption::Twap)?;
+    // the TWAP valuation cannot be computed when a reserve snapshot of the window is unable to
+    // fill the closing trade (its cost there is unbounded): the spot valuation is then the
+    // smaller of the two
+    let twap = get_position_notional_unrealized_pnl(deps, &position, PnlCalcOption::Twap);
 
     // calculate and return margin
     let PositionUnrealizedPnlResponse {
         position_notional,
         unrealized_pnl,
-    } = if spot_pnl.abs() > twap_pnl.abs() {
-        PositionUnrealizedPnlResponse {
-            position_notional: twap_notional,
-            unrealized_pnl: twap_pnl,
-        }
-    } else {
-        PositionUnrealizedPnlResponse {
+    } = match twap {
+        Ok(twap) if spot_pnl.abs() > twap.unrealized_pnl.abs() => twap,
+        _ => PositionUnrealizedPnlResponse {
             position_notional: spot_notional,
             unrealized_pnl: spot_pnl,
-        }
+        },
     };
 
     // a dust position can be worth less than one unit at this price: there is no ratio to speak of
